@@ -268,6 +268,37 @@ fn expect_none(chain: &[Wk], inner: &Option<Carried>) -> Option<Carried> {
     }
 }
 
+/// `Ignored` takes every item whatever its form and whatever tokens a list holds - alone and
+/// under every wrapper (a sink for members a macro does not care about).
+fn ignored_probe(t: &mut Tally) {
+    use darling::util::Ignored;
+    let mut items: Vec<(String, syn::Meta)> = metas();
+    for body in ["1 + 2", "a b c", "k => v", "a = ", ", ,", "#[x] y", "a(b c)", "\"s\" \"t\"", "::", "-"] {
+        let src = format!("#[v({body})] struct S;");
+        if let Ok(di) = syn::parse_str::<syn::DeriveInput>(&src) {
+            items.push((format!("v({body})"), di.attrs[0].meta.clone()));
+        }
+    }
+    fn one<T: FromMeta>(name: &str, label: &str, m: &syn::Meta, t: &mut Tally) {
+        t.evaluations += 1;
+        t.hit("ignored_checked");
+        match catch(std::panic::AssertUnwindSafe(|| T::from_meta(m))) {
+            Ok(Ok(_)) => {}
+            Ok(Err(e)) => t.violate(Violation { key: format!("C12 ignored {name} `{label}` :: {e}"), what: format!("{name} <- `{label}`: refused ({e}); `Ignored` accepts every item"), case: json!({"engine": "ignored"}), detail: json!({}) }),
+            Err(p) => t.violate(Violation { key: format!("C12 ignored {name} `{label}` :: panicked"), what: format!("{name} <- `{label}`: panicked: {p}"), case: json!({"engine": "ignored"}), detail: json!({}) }),
+        }
+    }
+    for (label, m) in &items {
+        one::<Ignored>("Ignored", label, m, t);
+        one::<Option<Ignored>>("Option<Ignored>", label, m, t);
+        one::<Box<Ignored>>("Box<Ignored>", label, m, t);
+        one::<darling::Result<Ignored>>("darling::Result<Ignored>", label, m, t);
+        one::<darling::util::SpannedValue<Ignored>>("SpannedValue<Ignored>", label, m, t);
+        one::<darling::util::WithOriginal<Ignored, syn::Meta>>("WithOriginal<Ignored, Meta>", label, m, t);
+    }
+    vrt::spans::reset();
+}
+
 pub fn metas() -> Vec<(String, syn::Meta)> {
     let texts = [
         "v", "a::b", "::v", "v()", "v(a)", "v(a = 1)", "v(zz)", "v(a = \"x\")", "v(a = 300)", "v(a = 1, b = \"s\")", "v(uno)", "v(duo = 4)", "v(duo = \"x\")", "v(k = \"s\", j = \"t\")", "v(k = \"s\", k = \"t\")", "v(a = \"x\", n(c = \"y\", d = \"z\"))", "v(a = 1, n(c = 2, zz))", "v(zz, n(), b = 5)", "v(a = 1, n(c = 2, d = 3))", "v(a, b,)", "v(a,)", "v(a = 1,)", "v(a = 1, b = \"s\",)", "v(uno,)", "v(a::b, c,)", "v(k = \"s\", j = \"t\",)",
@@ -403,8 +434,9 @@ pub fn main(args: &Args) {
     }
     let mut rep = Report::new("C12", args.tier, "exploration");
     let insts = instances();
-    let ms = metas();
     let mut t = Tally::default();
+    ignored_probe(&mut t);
+    let ms = metas();
     for inst in &insts {
         for (label, m) in &ms {
             check(inst, label, m, &mut t);
